@@ -721,13 +721,59 @@ def run_witnesses(ctx):
             ctx.bump("witness_no_longer_reproduces:" + fid)
 
 
+P0 = {"posonly": [], "args": [], "vararg": None, "kwonly": [], "kwarg": None, "defaults": [], "kw_defaults": []}
+FRAGMENT_WITNESSES = [
+    # (id, kind, program, name): the programs of the *_refuted_star / _orelse / _all / _exact_refuted_stage2 theorems
+    ("star", "free", [["from", ["m"], [["*", None]]], ["expr", ["load", "q", []]]], "q"),
+    ("orelse", "free", [["if", ["op", "const", []], [["pass"]], [["expr", ["load", "q", []]]]]], "q"),
+    ("all", "free", [["all", ["q"]]], "q"),
+    ("unboundlocal", "exec",
+     [["def", "f", [], dict(P0), None, [["expr", ["load", "q", []]], ["assign", [["n", "q"]], ["op", "const", []]]]],
+      ["assign", [["n", "f"]], ["op", "call", [["load", "reg_", []], ["load", "f", []]]]]], "q"),
+]
+
+
+def run_fragment_witnesses(ctx):
+    """the witnesses that delimit the proved fragments (Properties/C05.v: *_refuted_star, _orelse, _all,
+    C05_missing_exact_refuted_stage2), replayed on the implementation, the model and - where the program can run -
+    CPython: the stated outcome must be what all sides show"""
+    cases = [{"kind": k, "i": -100 - j, "prog": prog, "ns": [["reg_", "dec_", "d"]]} for j, (_, k, prog, _) in enumerate(FRAGMENT_WITNESSES)]
+    prepared = [prepare(c) for c in cases]
+    wcases = [{"kind": c["kind"], "src": p[0], "ns": c["ns"]} for c, p in zip(cases, prepared)]
+    impl = cm.run_impl("c05", "impl_case", wcases, timeout_case=20, jobs=1)
+    model = cm.coq_eval_json(REQ, [model_expr(c, p[1], p[2]) for c, p in zip(cases, prepared)])
+    for (wid, kind, _, name), c, p, im, mo0 in zip(FRAGMENT_WITNESSES, cases, prepared, impl, model):
+        mo = decode(mo0, p[2])
+        rec = {"i": c["i"], "kind": kind, "src": p[0], "ns": c["ns"], "prog": c["prog"]}
+        ctx.bump("fragment_witness_replayed")
+        reads = [(ln, r[0]) for ln, n, r in mo["trace"] if n == name]
+        if im.get("fm") != mo["fm"]:
+            ctx.disagreement("fragment witness %s: find_missing_imports" % wid, rec, im.get("fm"), mo["fm"])
+            continue
+        if wid == "star":
+            ok = im["fm"] == [] and any(r == "unbound" for _, r in reads) and mo.get("stage", 0) == 0
+        elif wid in ("orelse", "all"):
+            ok = im["fm"] == [name] and not reads and mo.get("stage", 0) == 0
+        else:
+            excs = im.get("run", {}).get("excs", [])
+            ok = (im["fm"] == [name] and any(r == "unboundlocal" for _, r in reads) and mo.get("stage", 0) == 2
+                  and bool(excs) and excs[0]["type"] == "UnboundLocalError" and excs[0]["name"] == name)
+        if not ok:
+            ctx.disagreement("fragment witness %s does not show the stated outcome" % wid, rec, im, mo.get("trace"))
+
+
 def run(ctx):
     cm.check_anchors(ctx, ANCHORS)
     run_witnesses(ctx)
+    run_fragment_witnesses(ctx)
     n = (600 if ctx.quick else 12000) * ctx.scale
     ctx.coverage["rule"] = (
         "terms of Scope/PySyntax.v from one seeded PRNG, rendered to source: 3/4 'executed' programs (no else/handler/"
         "star/__all__, every def and lambda registered and run after the module), 1/4 'free' programs (all constructs); "
+        "of every 10 programs 2 are generated without class / comprehension (stage-2 shaped) and 1 without any nested scope "
+        "(stage-1 shaped); the counters fragment:stage1 / fragment:stage2 / fragment:outside are the MEASURED number of "
+        "programs inside Fragment.s1_block / s2_block (with star-free namespaces) / neither - only those inside a stage are "
+        "covered by a theorem, and each of them is also checked against the proved statement by vm_compute; "
         "non-trivial = a name is reported missing, an import unused, or CPython recorded a failing global lookup; "
         "distinct by hash of (source, namespaces)")
     ctx.assumptions += [
